@@ -1,4 +1,6 @@
 import BpModel.Proofs.CDecTree
+import BpModel.Proofs.BridgePy
+import BpModel.Proofs.BridgeFmt
 /-!
 # C14 — every width × bit-offset × signedness combination is bit-exact in every runtime
 
@@ -53,6 +55,20 @@ theorem C14 (off : Fin 8) (pos : Fin 4) (k : Fin 130) (v : Val) (hv : inRange (f
     rwa [proj_self _ v hs] at this
   · have := CRt.c_dec_evo be (Evo.refl _ hwf) v hwf hwf hv
     rwa [proj_self _ v hs] at this
+
+/-- the translator tie: helper arithmetic, sign casts and storage widths as the sources read now -/
+theorem C14_helpers_tied :
+    (∀ k : Fin 8, ∀ c : Fin 9, Gen.PyHelpers.get_mask k.val c.val = (getMask k.val c.val : Nat)) ∧
+    (∀ n : Fin 256, ∀ k : Fin 15, Gen.PyHelpers.smart_shift n.val ((k.val : Int) - 7) =
+        (smartShift n.val ((k.val : Int) - 7) : Nat)) ∧
+    (∀ i j n : Nat, j ≤ n → Gen.PyHelpers.get_nbits_to_copy i j n = (nbitsToCopy i j n : Nat)) ∧
+    (∀ v, Gen.PyHelpers.int8 v = PyRt.intW 8 v) ∧ (∀ v, Gen.PyHelpers.int16 v = PyRt.intW 16 v) ∧
+    (∀ v, Gen.PyHelpers.int32 v = PyRt.intW 32 v) ∧ (∀ v, Gen.PyHelpers.int64 v = PyRt.intW 64 v) ∧
+    (∀ n : Fin 65, 1 ≤ n.val →
+      Gen.FmtHelpers.get_nbits_of_integer (Gen.FmtHelpers.type_nbytes n.val) = (storageBits n.val : Nat) ∧
+      storageBits n.val = 8 * CRt.storageSize n.val) :=
+  ⟨Bridge.get_mask_eq, Bridge.smart_shift_eq, Bridge.get_nbits_to_copy_eq, Bridge.int8_eq, Bridge.int16_eq,
+    Bridge.int32_eq, Bridge.int64_eq, Bridge.get_nbits_of_integer_eq⟩
 
 /-! ### non-vacuity: int61 as array element at offset 5, minimum / −1 / single bit -/
 example : inRange (frame 5 1 126) (.msg [.int 31, .arr [.int (-1152921504606846976), .int (-1), .int 1099511627776]]) = true := by
